@@ -152,6 +152,19 @@ def _default_key_normalizer(
 #: This can be used to alter the way pool keys are constructed, if desired.
 #: Each PoolManager makes a copy of this dictionary so they can be configured
 #: globally here, or individually on the instance.
+def _absolute_form_target(u: Url) -> str:
+    """
+    The absolute-form request target sent to a forwarding proxy: the
+    normalized URL without userinfo and fragment (RFC 9110, Section 4.2.4 and
+    RFC 9112, Section 3.2.2), with a default port left out and an empty
+    path sent as "/".
+    """
+    port = u.port
+    if u.scheme is not None and port == port_by_scheme.get(u.scheme):
+        port = None
+    return u._replace(auth=None, port=port, path=u.path or "/", fragment=None).url
+
+
 key_fn_by_scheme = {
     "http": functools.partial(_default_key_normalizer, PoolKey),
     "https": functools.partial(_default_key_normalizer, PoolKey),
@@ -443,7 +456,7 @@ class PoolManager(RequestMethods):
             kw["headers"] = self.headers
 
         if self._proxy_requires_url_absolute_form(u):
-            response = conn.urlopen(method, url, **kw)
+            response = conn.urlopen(method, _absolute_form_target(u), **kw)
         else:
             response = conn.urlopen(method, u.request_uri, **kw)
 
@@ -634,7 +647,7 @@ class ProxyManager(PoolManager):
             # headers on the CONNECT to the proxy. If we're not using CONNECT,
             # we'll definitely need to set 'Host' at the very least.
             headers = kw.get("headers", self.headers)
-            kw["headers"] = self._set_proxy_headers(url, headers)
+            kw["headers"] = self._set_proxy_headers(_absolute_form_target(u), headers)
 
         return super().urlopen(method, url, redirect=redirect, **kw)
 
